@@ -1,6 +1,7 @@
 package props
 
 import (
+	"math"
 	"fmt"
 	"strings"
 
@@ -101,7 +102,19 @@ func init() {
 					}
 					b.WriteString("\n")
 				}
-				b.WriteString("{$x};{$y};{$x * $y};{$x / $y};{$x + $y};{$x - $y}\n{/template}\n")
+				// rounding to d places: decimal halves that are not binary halves, values printed in exponent form, any d
+				halves := []string{"1.005", "2.675", "1.045", "8.345", "0.285", "1.255", "10.075", "1e-7", "5e-7", "1.5e-7", "2.5e-8", "0.5", "1.5", "2.5", "-0.5", "-1.5", "-2.5", "-1.005", "1234.5678", "0.000123456", "123456789012.5", "4503599627370495.5"}
+				for k := 0; k < 6; k++ {
+					v := halves[ctx.Rng.Intn(len(halves))]
+					if ctx.Rng.P(1, 3) {
+						// (integers beyond 2^53 are outside the subset, and rounding yields integers)
+						if l := pick().(*ref.Lit); math.Abs(l.V.F) < 1e12 {
+							v = l.Src
+						}
+					}
+					fmt.Fprintf(&b, "{round(%s, %d)};{round(%s)};{floor(%s)};{ceiling(%s)};", v, ctx.Rng.Intn(12)-3, v, v, v)
+				}
+				b.WriteString("\n{$x};{$y};{$x * $y};{$x / $y};{$x + $y};{$x - $y}\n{/template}\n")
 				files = append(files, srcFile{"flt.soy", b.String()})
 				fltData = map[string]ref.Value{"x": pick().(*ref.Lit).V, "y": pick().(*ref.Lit).V}
 				ctx.Cell("family:float-text")
